@@ -3016,6 +3016,12 @@ fn unify(ty_1: &Type, ty_2: &Type) -> Option<Type> {
     }
 }
 
+/// Verification hook: expose `unify`.
+#[cfg(wilfred_garden_verif)]
+pub(crate) fn verif_unify(ty_1: &Type, ty_2: &Type) -> Option<Type> {
+    unify(ty_1, ty_2)
+}
+
 fn check_match_exhaustive(
     env: &Env,
     scrutinee_pos: &Position,
